@@ -1,70 +1,19 @@
-"""Per-property configuration of the check pipeline (tools/check.py)."""
+"""Per-property configuration of the check pipeline: one file per property in tools/props/<id>.py defining PROP.
 
-COMMON_TRUST = [
-    "Lean 4.33.0 kernel; axioms limited to propext, Classical.choice, Quot.sound (audited per theorem by #print axioms)",
-    "Lean compiler/runtime for the compiled model driver (svdriver)",
-    "tools/extract.py (constants regenerated from /repo on every run)",
-    "the Rust correspondence harness (generators, canonicalisation) and the verif_hooks re-exports",
-]
+PROP keys: generated (extractor names), lean_modules (sources scanned for forbidden constructs), engines (list of
+{name, crate, bin, machine, cases:{quick,thorough}, [features], [gen_args], [shards], [min_shard], [modes], [timeout]}),
+level_text, level_note, trusted_base, assumptions, [technique], [rule].
+"""
+import glob, importlib.util, os, sys
 
-# commits in /repo that add the `verif_hooks` feature (add-only re-exports)
-HOOK_COMMITS = []
+_D = os.path.join(os.path.dirname(os.path.abspath(__file__)), "props")
+sys.path.insert(0, _D)
+from common import COMMON_TRUST, HOOK_COMMITS, PENDING  # noqa: E402,F401
 
-# properties not (yet) claimed: reason shown in MANIFEST.not_applicable
-PENDING = {}
-
-PROPS = {
-    "C12": {
-        "generated": ["CoopConsts"],
-        "lean_modules": ["SwimVerif.Model.Conduit", "SwimVerif.Model.ConduitMon", "SwimVerif.Proofs.Conduit",
-                         "SwimVerif.Generated.CoopConsts"],
-        "engines": [
-            {"name": "conduit", "crate": "core", "bin": "sv-c12", "machine": "c12",
-             "cases": {"quick": 4000, "thorough": 400000}, "min_shard": 1000},
-        ],
-        "trusted_base": COMMON_TRUST + [
-            "modelled, not verified: parking_lot::Mutex (each poll is one atomic step), std::task::Waker, bytes::BytesMut",
-        ],
-        "level_text": "Proof: for every capacity >= 1 and every sequence of poll_read/poll_write/flush/shutdown/drop/"
-                      "budget operations, an invariant proved by induction gives FIFO-prefix, boundedness, EOF after "
-                      "drain, failure after close and no-lost-wake-up (+ progress) for the model of Conduit + coop "
-                      "budget; the model is tied to the real byte_channel by differential execution with counting "
-                      "wakers (poll results, bytes and which waker fired, step by step).",
-        "level_note": "Trusted: Lean kernel, compiled driver, harness; modelled not verified: the mutex (polls are "
-                      "atomic), Waker, BytesMut. Real multi-threaded schedules are covered only through the "
-                      "atomicity assumption.",
-        "assumptions": [
-            "each poll of either half runs atomically under the channel mutex",
-            "one task per half (the waker passed by a half is always that task's waker)",
-        ],
-    },
-    "C17": {
-        "generated": ["TimeoutConsts"],
-        "lean_modules": ["SwimVerif.Model.TimeoutCoord", "SwimVerif.Proofs.TimeoutCoord",
-                         "SwimVerif.Generated.TimeoutConsts"],
-        "engines": [
-            {"name": "coord-random", "crate": "core", "bin": "sv-c17", "machine": "c17",
-             "features": [], "cases": {"quick": 6000, "thorough": 600000}, "min_shard": 1000},
-            {"name": "coord-exh2", "crate": "core", "bin": "sv-c17", "machine": "c17", "shards": 1,
-             "cases": {"quick": 1, "thorough": 1},
-             "gen_args": {"quick": ["exhaustive", "2", "5"], "thorough": ["exhaustive", "2", "7"]}},
-            {"name": "coord-exh3", "crate": "core", "bin": "sv-c17", "machine": "c17", "shards": 1,
-             "cases": {"quick": 1, "thorough": 1},
-             "gen_args": {"quick": ["exhaustive", "3", "4"], "thorough": ["exhaustive", "3", "6"]}},
-        ],
-        "level_text": "Proof: for 2..8 parties and every interleaving of the voters' atomic steps (fetch_or, the "
-                      "load and the compare_exchange of the rescind loop, drop) and receiver polls: the flag set "
-                      "equals the set of outstanding votes, unanimity is stable, Unanimous/UnanimityPending answers "
-                      "are sound, a withdrawn vote blocks the stop until re-cast, a dropped party counts as voted. "
-                      "Tied to the real coordinator by differential execution at operation granularity (random + "
-                      "exhaustive small scope for 2 and 3 parties).",
-        "level_note": "Atomics are modelled as a total modification order on one location (guaranteed by Rust even for "
-                      "Relaxed); AtomicWaker and the Acquire/Release pairing with the receiver are trusted; the "
-                      "implementation is exercised single-threaded, the interleavings are covered by the theorem.",
-        "trusted_base": COMMON_TRUST + [
-            "modelled, not verified: AtomicU8 (single-location total order), futures::task::AtomicWaker",
-        ],
-        "assumptions": ["each voter is used by one thread at a time (Voter is !Sync)",
-                        "single-location atomic operations are linearizable"],
-    },
-}
+PROPS = {}
+for _p in sorted(glob.glob(os.path.join(_D, "C*.py"))):
+    _n = os.path.splitext(os.path.basename(_p))[0]
+    _spec = importlib.util.spec_from_file_location("prop_" + _n, _p)
+    _m = importlib.util.module_from_spec(_spec)
+    _spec.loader.exec_module(_m)
+    PROPS[_n] = _m.PROP
